@@ -27,7 +27,8 @@ type HookCase struct {
 	Failing    []string `json:"failing,omitempty"`    // names of the failing hooks
 	FollowUp   bool     `json:"follow_up,omitempty"`  // attempt one more transition after the target
 	Enumerated bool     `json:"enumerated,omitempty"`
-	LateReport bool     `json:"late_report,omitempty"` // crash-only case: a hook task reports after its timeout // part of the exhaustive single-failure enumeration
+	LateReport bool     `json:"late_report,omitempty"` // a hook task reports (exit 0) after its timeout while a sibling is pending
+	Sibling    bool     `json:"sibling,omitempty"`     // one failing critical call + gated healthy call(s) at the same await point // part of the exhaustive single-failure enumeration
 }
 
 func genWalk(r *rand.Rand, maxLen int) []string {
